@@ -1,9 +1,17 @@
 prop(
     "C11",
     quick=[("native", 16)],
-    thorough=[("native", 16), ("asan", 8), ("miri", 8)],
+    thorough=[("native", 16), ("asan", 8), ("miri", 8), ("fuzz", 16)],
     level="exploration",
     min_evals={"quick": 30_000, "thorough": 3_000_000},
+    # configuration of the `fuzz` stage (driver side: run_fuzz_stage in ../../check, target: harness/fuzz/fuzz_targets/c11_xml.rs)
+    fuzz={
+        "seconds": 120,
+        "max_len": 16384,
+        "targets": [
+            {"name": "c11_xml", "group": "xml"},
+        ],
+    },
     rule=(
         "Messages are built through the public constructors only: RFC 6492 list, list_response, issue, issue_response, revoke, "
         "revoke_response, error_response (all 11 codes); RFC 8181 list query, list reply, publish/update/withdraw deltas, success, "
@@ -20,7 +28,11 @@ prop(
         "sometimes to another of the six parsers under catch_unwind. evaluations = round trips + documents judged by expat + parser runs. "
         "A case signature (distinct_nontrivial) is (message variant, which string fields carry XML-special characters, which carry edge "
         "spaces, list-size classes, resource-shape classes / payload class) for strict round-trip cases, and (parser, mutator) for mutants; "
-        "cases built from values outside the protocols (see assumptions) are not counted as signatures."
+        "cases built from values outside the protocols (see assumptions) are not counted as signatures. "
+        "The fuzz stage (thorough) adds coverage-guided libFuzzer executions of target c11_xml: input octet 0 selects one of the six parsers (provisioning::Message::decode, "
+        "publication::Message::decode, ChildRequest / ParentResponse / PublisherRequest / RepositoryResponse::parse), the rest (up to 16 KiB) is the document; judged by the same "
+        "function as the mutants (no panic in the parser, in writing an accepted value or in parsing that again; hook H1 drained). Seeded with up to 480 documents the library wrote "
+        "for generated messages of all variants; executions are counted as evaluations, not as signatures."
     ),
     assumptions=[
         "protocol-valid field values = printable ASCII strings where the API takes a string, handles matching RFC 8183's pattern, URIs accepted by the uri parsers, canonical resource sets, whole-second times in years 0001..9999, non-empty payloads; control characters and non-ASCII only occur in the parser-robustness part",
@@ -34,13 +46,14 @@ prop(
         "Runtime monitoring of the real writers and parsers on generated messages: every written document is judged by an independent XML "
         "parser (expat) and by the round-trip equivalence the property states; the six parsers are run on millions of byte- and tag-level "
         "mutants and random documents under panic capture, natively with overflow checks, under AddressSanitizer, and (XML-only variants, "
-        "small sizes) under Miri. The input space (all messages, all byte strings) is unbounded, so this is exploration by dense sampling "
+        "small sizes) under Miri. The thorough tier ends with 2 minutes of coverage-guided libFuzzer (16 forks, ASan build) on the six parsers with the no-panic oracle. "
+        "The input space (all messages, all byte strings) is unbounded, so this is exploration by dense sampling "
         "of the classes named in the rule."
     ),
     level_note=(
         "Sampling, not proof: string fields are ASCII only, lists up to ~600 entries, documents up to ~250 kB; certificate-bearing variants "
         "reuse 3 certificates / 3 CSRs / 2 identity certificates per shard; Miri sees no certificate-bearing variant and no expat verdicts."
     ),
-    technique="runtime oracle (independent expat parser + round-trip equivalence) over generated messages; mutation-based parser robustness; ASan + Miri",
+    technique="runtime oracle (independent expat parser + round-trip equivalence) over generated messages; mutation-based and coverage-guided (libFuzzer) parser robustness; ASan + Miri",
     design_ref="DESIGN.md §4 C11",
 )
